@@ -14,13 +14,14 @@ CHECKS = {
         technique='Lean 4 theorem ctl_exact (induction over formulas; EX/EU/EG fixed-point cores, work-list and SCC '
                   'correctness) about a function-by-function model of _checkStateFormula + differential correspondence '
                   'model vs CTL.modelcheck',
-        text='Theorem PMC.C01.ctl_exact: for every Kripke.WF structure and every CTL state formula the model CTL.check '
+        text='Theorems PMC.C01.ctl_exact (+ ctl_exact_memo for the memoised algorithm): for every Kripke.WF structure and every CTL state formula the model CTL.check '
              'returns exactly the satisfying states (all sizes, all depths). The model follows _checkStateFormula/'
              '_checkEU/_checkEG/_checkEX case by case; it is tied to the code on every run by running both on all '
              'structures with <=2 states x all depth<=1 formulas, sampled 3-state structures and random ones (<=6 '
              'states, depth<=4): any disagreement is a failing input because the model is proved exact.',
-        note=TB + 'The memo table keyed by printed formula is not modelled: it is transparent when printing is '
-             'injective (C09 theorem printCTL_injective) and is exercised by the correspondence.'),
+        note=TB + 'The memo table keyed by printed formula is modelled separately (CTL.checkM) and proved transparent for '
+             'formulas over identifier atoms (ctl_exact_memo, via printCTL_injective); a kernel-checked example shows the '
+             'stale-entry answer for an atom named "not p", reproduced on the real code.'),
     'C02': dict(
         cat='proof', ref='5/C02',
         technique='Lean 4 theorems ltl_exact and ltl_excluded_iff_lasso (tableau truth lemma, soundness with periodic '
@@ -97,14 +98,15 @@ CHECKS = {
         technique='Lean 4 theorems: ROBDD canonicity, unique-table invariant preserved by node creation (find_isomorph '
                   'through the smaller parent set) and by every admissible garbage collection, by induction over '
                   'operation histories + differential histories with gc.collect() and live-node scans',
-        text='Theorems PMC.C16.*: history_inv (every store reachable by any sequence of creations and collections '
+        text='Theorems PMC.C16.* (C16.lean, C16Ops.lean): history_inv (every store reachable by any sequence of creations and collections '
              'satisfies the unique-table invariant), no_duplicate_triple, id_eq_iff_tree_eq, tree_eq_iff_same_function, '
              'obdd_eq_iff_same_function, gc_preserves. Tie: random build/combine/drop/gc histories over pools of OBDDs '
              '(<=4 variables, all orderings): trees, ==/is, truth tables, duplicate-triple scan of BDDNode.nodes() and '
              'live-node count after gc.collect() vs the model.',
         note=TB + 'CPython weak sets + reference counting are modelled as "a node disappears only when no live node or '
-             'root points to it"; per-call memo caches are not modelled (they return an earlier result of the same '
-             'deterministic computation).'),
+             'root points to it"; the store-level apply/restrict/invert with their per-call caches are modelled in '
+             'BDDStoreOps.lean and proved to compute the tree-level results (applyS_spec, cache_transparent, '
+             'session_canonical).'),
     'C17': dict(
         cat='proof', ref='5/C17',
         technique='Lean 4 theorems and_spec/or_spec/xor_spec/invert_spec/restrict_spec/variables_eq_support on reduced '
